@@ -66,9 +66,9 @@ theorem Inv.map {pc l} (f : CNode → CNode) (hf : ∀ c, SameCore c (f c)) (h :
 
 /-! ### connecting keeps the members -/
 
-theorem connectPos_mem (children : List CNode) (pm : String) (n c : CNode) (h : c ∈ connectPos children pm n) :
+theorem connectPos1_mem (children : List CNode) (pm : String) (n c : CNode) (h : c ∈ connectPos1 children pm n) :
     c ∈ children ∨ c = n := by
-  unfold connectPos at h
+  unfold connectPos1 at h
   split at h
   · simp at h; exact Or.inr h
   · split at h
@@ -86,6 +86,17 @@ theorem connectPos_mem (children : List CNode) (pm : String) (n c : CNode) (h : 
         · exact Or.inl (List.mem_of_mem_take h)
         · exact Or.inr h
         · exact Or.inl (List.mem_of_mem_drop h)
+
+theorem connectPos_mem (children : List CNode) (pm : String) (n c : CNode) (h : c ∈ connectPos children pm n) :
+    c ∈ children ∨ c = n := by
+  unfold connectPos at h
+  simp only [List.mem_append] at h
+  rcases h with (h | h) | h
+  · exact Or.inl ((List.mem_filter.mp h).1)
+  · rcases connectPos1_mem _ pm n c h with h | h
+    · exact Or.inl ((List.mem_filter.mp h).1)
+    · exact Or.inr h
+  · exact Or.inl ((List.mem_filter.mp h).1)
 
 theorem inv_connectPos {pc acc pm n} (ha : Inv pc acc) (hn : Inv pc [n]) : Inv pc (connectPos acc pm n) := by
   intro c hc
@@ -156,19 +167,23 @@ theorem nodeHead_facts (env : Env) (st : St) (cx : Cx) (inh : Nat) (p0 : Props) 
     · cases hh
     · split at hh
       · cases hh
-      · cases hh
-      · rename_i cfgv stv hc hs
-        simp only [Except.ok.injEq, Prod.mk.injEq] at hh
-        obtain ⟨_, rfl⟩ := hh
-        refine ⟨rfl, ?_, rfl, rfl, rfl⟩
-        intro hp
-        simp only
-        cases hpar : cx.parent with
-        | none => simp [pcfg, hpar] at hp
-        | some pi =>
-          simp only [pcfg, hpar] at hp
-          rw [hpar] at hc
-          exact compileConfig_under pi _ _ hc hp
+      · split at hh
+        · cases hh
+        · cases hh
+        · rename_i cfgv stv hc hs
+          simp only [Except.ok.injEq, Prod.mk.injEq] at hh
+          obtain ⟨_, rfl⟩ := hh
+          refine ⟨rfl, ?_, rfl, rfl, rfl⟩
+          intro hp
+          simp only
+          split at hc
+          · simp only [Except.ok.injEq] at hc; exact hc.symm
+          · cases hpar : cx.parent with
+            | none => simp [pcfg, hpar] at hp
+            | some pi =>
+              simp only [pcfg, hpar] at hp
+              rw [hpar] at hc
+              exact compileConfig_under pi _ _ hc hp
 
 theorem leafBody_facts (env : Env) (cx : Cx) (h : Head) (c : CNode) (hk : leafish h.p.kind = true) (hd : h.d0.kind = h.p.kind)
     (hb : leafBody env cx h = .ok c) : c.children = [] ∧ c.d.config = h.d0.config ∧ c.d.kind ≠ .container := by
@@ -283,33 +298,40 @@ theorem stmt_node (env : Env) (fuel : Nat) (ih : Stmt env fuel) :
         · rename_i st2 acc hbody
           split at h
           · cases h
-          · rename_i st3 acc3 haug
+          · rename_i st3 acc3a haug
             split at h
             · cases h
-            · rename_i c hfin
-              simp only [Except.ok.injEq, Prod.mk.injEq] at h
-              rw [← h.2]
-              obtain ⟨hch, hcfg, hm⟩ := finishInner_facts hd acc3 c hkind hfin
-              -- the children before the augments
-              have hacc : Inv (pcfg hd.cxk) acc := by
-                split at hbody
-                · exact ih.2.2.1 _ _ _ _ _ _ hbody (Inv.nil _)
-                · split at hbody
-                  · cases hbody
-                  · rename_i st4 cs4 h4
+            · rename_i st3b cs3b hops
+              split at h
+              · cases h
+              · rename_i acc3 hconn3
+                split at h
+                · cases h
+                · rename_i c hfin
+                  simp only [Except.ok.injEq, Prod.mk.injEq] at h
+                  rw [← h.2]
+                  obtain ⟨hch, hcfg, hm⟩ := finishInner_facts hd acc3 c hkind hfin
+                  -- the children before the augments
+                  have hacc : Inv (pcfg hd.cxk) acc := by
                     split at hbody
-                    · cases hbody
-                    · rename_i acc5 h5
-                      simp only [Except.ok.injEq, Prod.mk.injEq] at hbody
-                      rw [← hbody.2]
-                      exact inv_connectAll _ _ _ (Inv.nil _) (ih.2.1 _ _ _ _ _ _ h4) h5
-              have hacc3 : Inv (pcfg hd.cxk) acc3 := ih.2.2.2.1 _ _ _ _ _ haug hacc
-              intro c' hc'
-              simp only [List.mem_singleton] at hc'
-              subst hc'
-              refine ⟨fun hp => by rw [hcfg]; exact hunder hp, ?_⟩
-              rw [hpc, ← hcfg] at hacc3
-              exact good_of_parts c' acc3 hch hacc3 hm
+                    · exact ih.2.2.1 _ _ _ _ _ _ hbody (Inv.nil _)
+                    · split at hbody
+                      · cases hbody
+                      · rename_i st4 cs4 h4
+                        split at hbody
+                        · cases hbody
+                        · rename_i acc5 h5
+                          simp only [Except.ok.injEq, Prod.mk.injEq] at hbody
+                          rw [← hbody.2]
+                          exact inv_connectAll _ _ _ (Inv.nil _) (ih.2.1 _ _ _ _ _ _ h4) h5
+                  have hacc3a : Inv (pcfg hd.cxk) acc3a := ih.2.2.2.1 _ _ _ _ _ haug hacc
+                  have hacc3 : Inv (pcfg hd.cxk) acc3 := inv_connectAll _ _ _ hacc3a (ih.2.1 _ _ _ _ _ _ hops) hconn3
+                  intro c' hc'
+                  simp only [List.mem_singleton] at hc'
+                  subst hc'
+                  refine ⟨fun hp => by rw [hcfg]; exact hunder hp, ?_⟩
+                  rw [hpc, ← hcfg] at hacc3
+                  exact good_of_parts c' acc3 hch hacc3 hm
 
 theorem stmt_nodes (env : Env) (fuel : Nat) (ih : Stmt env fuel) :
     ∀ st cx inh pns st' cs, compileNodes env (fuel + 1) st cx inh pns = .ok (st', cs) → Inv (pcfg cx) cs := by
@@ -369,43 +391,45 @@ theorem stmt_aug (env : Env) (fuel : Nat) (ih : Stmt env fuel) :
   simp only [compileAug] at h
   split at h
   · cases h
-  · split at h
-    · cases h
-    · split at h
-      · cases h
-      · rename_i st1 cases1 cs1 hr
-        have hnews : Inv (pcfg cx) (cases1 ++ cs1) := by
-          split at hr
-          · split at hr
-            · cases hr
-            · rename_i st2 cs2 h2
-              simp only [Except.ok.injEq, Prod.mk.injEq] at hr
-              obtain ⟨_, hc, hcs⟩ := hr
-              rw [← hc, ← hcs]
-              simp only [List.append_nil]
-              have t := ih.2.2.1 _ _ _ _ _ _ h2 (Inv.nil _)
-              exact t
-          · split at hr
-            · cases hr
-            · rename_i st2 cs2 h2
-              simp only [Except.ok.injEq, Prod.mk.injEq] at hr
-              obtain ⟨_, hc, hcs⟩ := hr
-              rw [← hc, ← hcs]
-              simp only [List.nil_append]
-              have t := ih.2.1 _ _ _ _ _ _ h2
-              exact t
-        repeat' split at h
-        all_goals first
-          | (cases h; done)
-          | (simp only [Except.ok.injEq, Prod.mk.injEq] at h
-             rw [← h.2]
-             first
-               | exact inv_foldCase _ _ _ hacc (Inv.map _ (fun c => sameCore_cond _ _ c) hnews) (by assumption)
-               | exact inv_foldCase _ _ _ hacc (Inv.map _ (fun c => (sameCore_addWhens _ c).trans (sameCore_setDisabled _)) hnews) (by assumption)
-               | exact inv_foldCase _ _ _ hacc (Inv.map _ (fun c => sameCore_addWhens _ c) hnews) (by assumption)
-               | exact inv_connectAll _ _ _ hacc (Inv.map _ (fun c => sameCore_cond _ _ c) hnews) (by assumption)
-               | exact inv_connectAll _ _ _ hacc (Inv.map _ (fun c => (sameCore_addWhens _ c).trans (sameCore_setDisabled _)) hnews) (by assumption)
-               | exact inv_connectAll _ _ _ hacc (Inv.map _ (fun c => sameCore_addWhens _ c) hnews) (by assumption))
+  split at h
+  · cases h
+  split at h
+  · cases h
+  split at h
+  · cases h
+  rename_i st1 cases1 cs1 hr
+  have hnews : Inv (pcfg cx) (cases1 ++ cs1) := by
+    split at hr
+    · split at hr
+      · cases hr
+      · rename_i st2 cs2 h2
+        simp only [Except.ok.injEq, Prod.mk.injEq] at hr
+        obtain ⟨_, hc, hcs⟩ := hr
+        rw [← hc, ← hcs]
+        simp only [List.append_nil]
+        have t := ih.2.2.1 _ _ _ _ _ _ h2 (Inv.nil _)
+        exact t
+    · split at hr
+      · cases hr
+      · rename_i st2 cs2 h2
+        simp only [Except.ok.injEq, Prod.mk.injEq] at hr
+        obtain ⟨_, hc, hcs⟩ := hr
+        rw [← hc, ← hcs]
+        simp only [List.nil_append]
+        have t := ih.2.1 _ _ _ _ _ _ h2
+        exact t
+  repeat' split at h
+  all_goals first
+    | (cases h; done)
+    | (simp only [Except.ok.injEq, Prod.mk.injEq] at h
+       rw [← h.2]
+       first
+         | exact inv_foldCase _ _ _ hacc (Inv.map _ (fun c => sameCore_cond _ _ c) hnews) (by assumption)
+         | exact inv_foldCase _ _ _ hacc (Inv.map _ (fun c => (sameCore_addWhens _ c).trans (sameCore_setDisabled _)) hnews) (by assumption)
+         | exact inv_foldCase _ _ _ hacc (Inv.map _ (fun c => sameCore_addWhens _ c) hnews) (by assumption)
+         | exact inv_connectAll _ _ _ hacc (Inv.map _ (fun c => sameCore_cond _ _ c) hnews) (by assumption)
+         | exact inv_connectAll _ _ _ hacc (Inv.map _ (fun c => (sameCore_addWhens _ c).trans (sameCore_setDisabled _)) hnews) (by assumption)
+         | exact inv_connectAll _ _ _ hacc (Inv.map _ (fun c => sameCore_addWhens _ c) hnews) (by assumption))
 
 theorem stmt_augs (env : Env) (fuel : Nat) (ih : Stmt env fuel) :
     ∀ st cx acc st' r, applyAugs env (fuel + 1) st cx acc = .ok (st', r) → Inv (pcfg cx) acc → Inv (pcfg cx) r := by
